@@ -24,6 +24,6 @@ def main():
     chk.tv(groups(900 if chk.thorough else 90, chk.seed), "C12 sweep")
     chk.assumptions += ["dist_factor >= 1 is compared with slack 4k*2^-52 (sum of k float norms)",
                         "model-time increments are compared bit-exactly (same IEEE addition)"]
-    chk.replay_behaviours(num=250 if not chk.thorough else 2000)
+    chk.replay_behaviours(num=500 if not chk.thorough else 6000)
     return chk.finish(rule="MC of the solve loop (all outcome sequences within bounds) + traced real solves with "
                            "collect_path over all controllers/policies; distinct = distinct (problem,params,outcome) groups with >=1 trial")
